@@ -194,6 +194,9 @@ func execSend(a []string) (string, string) {
 		return "session-differs-from-op", ""
 	}
 	e.script = script
+	if driveScript != nil {
+		e.script = driveScript
+	}
 	e.sess.AuthenticatedSequenceNumbers.Inbound = inb
 	old := rand.Reader
 	rand.Reader = io.Reader(&cycleReader{b: entropy})
@@ -209,6 +212,9 @@ func execSend(a []string) (string, string) {
 		}()
 		return e.sess.SendCommand(e.ctx, c)
 	}()
+	if useUDP {
+		udpSettle()
+	}
 	switch {
 	case res == "panic":
 	case err == nil:
